@@ -10,7 +10,7 @@ EXC_KINDS = ["LookupError", "ValueError", "KeyError", "CustomWithArgs", "StopAsy
 THREAD_ONLY_EXC = ["StopIteration", "AsyncioCancelledErrorAsException"]
 BASE_KINDS = ["SystemExit", "SystemExitZero", "SystemExitNone", "GeneratorExit", "CustomBase"]
 RETURN_KINDS = ["zero", "zerofloat", "false", "emptystr", "emptylist", "emptytuple", "emptybytes", "emptydict", "str", "one",
-                "object", "dict", "true"]
+                "object", "dict", "true", "awaitable", "generator"]
 
 
 def bystander(rnd, pid, flavour=None, when=None):
